@@ -23,7 +23,7 @@ git diff > /tmp/confirm/$id$v.patch
 go build ./... >>$log 2>&1 || { echo "$id/$v: does not compile"; exit 4; }
 meta=$src/meta.json
 demo_dir=$(jq -r .demo_dir $meta); demo_cmd=$(jq -r .demo_cmd $meta); tests_run=$(jq -r .tests_run $meta)
-demo_file=$(ls $src | grep -v -e patch.diff -e meta.json | head -1)
+demo_file=$(ls $src | grep -v -e patch.diff -e meta.json | grep "\.go$" | head -1)
 # existing tests with the change
 pk=$(git diff --name-only | xargs -n1 dirname | sort -u | sed 's|^|./|' | tr '\n' ' ')
 echo "== existing tests of touched packages: $pk" >>$log
